@@ -6,6 +6,20 @@ import os
 VERIF = os.path.dirname(os.path.dirname(os.path.abspath(__file__)))
 
 CLAIMED = {
+    "C11": dict(
+        category="other",
+        technique="CrossHair/z3 bounded symbolic execution of Stack.pop_n_values, construct_stack_ast (symbolic stack effects) and the immediates-dependent stack effects for all 0<=n<=255; finite opcode table vs independent AVM table",
+        text="The emulation step is confirmed for an arbitrary tracked stack and pop count (inductive: any sequence), construct_stack_ast is confirmed on a three-instruction block with symbolic stack effects against a reference over value identities, and every opcode's (pops, pushes) equals the AVM signature - symbolically in the immediates where they matter, by complete enumeration of the finite table otherwise.",
+        note="known finding KF-C11-frame-bury; frame-pointer aliasing and cross-block operands are outside",
+        design_ref="DESIGN.md section 4 C11", engine="K",
+    ),
+    "C19": dict(
+        category="other",
+        technique="CrossHair/z3 bounded symbolic execution of _verify_version / _detect_execution_mode / cost properties with the declared version symbolic over 1..8, per opcode and field against an independent AVM table cross-checked with pyteal",
+        text="For every opcode, transaction field and global field of TEAL v1-v8: flagged exactly when the declared version is below the introduction version; instruction modes; mode detection and mixture on symbolic mode lists; contract type; default version; per-version opcode costs and block cost sums.",
+        note="`method`, size-dependent costs and field-level modes are outside the claim",
+        design_ref="DESIGN.md section 4 C19", engine="K",
+    ),
     "C13": dict(
         category="translation_validation",
         technique="z3 symbolic execution of all configured contracts inside one symbolic group (slot of each transaction, group size and all fields are solver variables); real init_tealer_from_config + run_detectors validated in both directions; CrossHair on the relative-index relation",
@@ -99,7 +113,7 @@ CLAIMED = {
     ),
 }
 
-NOT_YET = {'C11': 'check under construction in this build round (see DESIGN.md section 9); not claimed yet', 'C14': 'check under construction in this build round (see DESIGN.md section 9); not claimed yet', 'C15': 'check under construction in this build round (see DESIGN.md section 9); not claimed yet', 'C16': 'check under construction in this build round (see DESIGN.md section 9); not claimed yet', 'C17': 'check under construction in this build round (see DESIGN.md section 9); not claimed yet', 'C19': 'check under construction in this build round (see DESIGN.md section 9); not claimed yet', 'C18': 'relates DOT/JSON text renderings to internal objects: no run-time input, constant or schedule for a solver to range over; int->str/re/file output are beyond CrossHair (measured); reading files back would be output testing, another technique'}
+NOT_YET = {'C14': 'check under construction in this build round (see DESIGN.md section 9); not claimed yet', 'C15': 'check under construction in this build round (see DESIGN.md section 9); not claimed yet', 'C16': 'check under construction in this build round (see DESIGN.md section 9); not claimed yet', 'C17': 'check under construction in this build round (see DESIGN.md section 9); not claimed yet', 'C18': 'relates DOT/JSON text renderings to internal objects: no run-time input, constant or schedule for a solver to range over; int->str/re/file output are beyond CrossHair (measured); reading files back would be output testing, another technique'}
 
 
 def main() -> None:
